@@ -104,3 +104,281 @@ def iq_real_case(spec):
         if r + 1 < rounds:
             q.renew()
     return {}
+
+
+# ---------------------------------------------------------------- C12 targets
+
+
+class MultiArg(Exception):
+    def __init__(self, a, b, c):
+        super().__init__(a, b, c)
+
+
+def build_exc(name):
+    from .workers import CustomError, CustomError2
+
+    if name == 'ValueError':
+        return ValueError('bad value', 7)
+    if name == 'KeyError':
+        return KeyError('k')
+    if name == 'CustomError':
+        return CustomError('custom', (1, 2))
+    if name == 'CustomError2':
+        return CustomError2('x', 'y')
+    if name == 'KeyboardInterrupt':
+        return KeyboardInterrupt('ctrl-c')
+    if name == 'MultiArg':
+        return MultiArg(1, 'two', 3.0)
+    raise ValueError(name)
+
+
+def end_like(ending, value, exc, code):
+    """the generated way a target ends"""
+    import sys
+
+    if ending == 'return':
+        return value
+    if ending == 'raise':
+        raise build_exc(exc)
+    if ending == 'raise_base':
+        raise build_exc('KeyboardInterrupt')
+    if ending == 'raise_multiarg':
+        raise build_exc('MultiArg')
+    if ending == 'exit_none':
+        sys.exit()
+    if ending == 'exit_0':
+        sys.exit(0)
+    if ending == 'exit_n':
+        sys.exit(code)
+    if ending == 'exit_str':
+        sys.exit('bye')
+    if ending == 'unpicklable':
+        return lambda: value
+    raise ValueError(ending)
+
+
+def _park(conn):
+    try:
+        conn.send('parked')
+    except Exception:
+        pass
+    time.sleep(60)
+
+
+def proc_target(spec, conn):
+    import logging
+    import multiprocessing.util
+
+    for i in range(spec.get('log_lines', 0)):
+        logging.getLogger('c12.child').info('line %d', i)
+    if spec['kill'] != 'none':
+        if spec['phase'] == 'during':
+            conn.send('running')
+            time.sleep(60)
+        elif spec['phase'] == 'after_result':
+            # park in an exit finalizer: the outcome has been sent to the parent by then
+            multiprocessing.util.Finalize(None, _park, args=(conn,), exitpriority=100)
+    return end_like(spec['ending'], spec['value'], spec['exc'], spec['code'])
+
+
+def _canon(kind, v):
+    if kind == 'raised' or isinstance(v, BaseException):
+        return f'{type(v).__name__}{tuple(v.args)!r}'
+    return repr(v)
+
+
+def process_case(spec):
+    import os
+    import signal
+    import threading
+
+    import mpservice.multiprocessing as mmp
+    from mpservice import TimeoutError as MpTimeoutError
+
+    from .workers import tb_text
+
+    parent_conn, child_conn = mmp.MP_SPAWN_CTX.Pipe()
+    p = mmp.Process(target=proc_target, args=(spec, child_conn))
+    p.start()
+    res = {'records': []}
+    kill = spec['kill']
+    if kill != 'none':
+        if spec['phase'] in ('during', 'after_result'):
+            if parent_conn.poll(20):
+                parent_conn.recv()
+            else:
+                res['kill_missed'] = True
+        if not res.get('kill_missed'):
+            if kill == 'terminate':
+                p.terminate()
+            else:
+                try:
+                    os.kill(p.pid, getattr(signal, kill))
+                except ProcessLookupError:
+                    res['kill_missed'] = True
+
+    def run_acc(name):
+        box = {}
+
+        def go():
+            try:
+                if name == 'join':
+                    v = p.join()
+                elif name == 'result':
+                    v = p.result()
+                elif name == 'exception':
+                    v = p.exception()
+                    box['r'] = ('returned', _canon('returned', v) if v is not None else 'None')
+                    return
+                elif name == 'done':
+                    # give the OS a moment: the property is about the state after the end
+                    t0 = time.monotonic()
+                    while not p.done() and time.monotonic() - t0 < 10:
+                        time.sleep(0.01)
+                    v = p.done()
+                elif name == 'exitcode':
+                    t0 = time.monotonic()
+                    while p.exitcode is None and time.monotonic() - t0 < 10:
+                        time.sleep(0.01)
+                    v = p.exitcode
+                elif name == 'wait':
+                    d, nd = mmp.wait([p], timeout=10)
+                    v = 'done' if p in d else 'not_done'
+                    box['r'] = ('returned', v)
+                    return
+                elif name == 'as_completed':
+                    got = []
+                    try:
+                        for x in mmp.as_completed([p], timeout=10):
+                            got.append(x)
+                    except Exception:
+                        pass
+                    box['r'] = ('returned', 'done' if got == [p] else 'missing')
+                    return
+                box['r'] = ('returned', repr(v))
+            except BaseException as e:
+                box['r'] = ('raised', _canon('raised', e))
+                box['tb'] = tb_text(e)
+
+        t = threading.Thread(target=go, daemon=True)
+        t.start()
+        t.join(15)
+        if t.is_alive():
+            return ('hang', None), ''
+        return box['r'], box.get('tb', '')
+
+    for name in spec['accessors']:
+        r, tb = run_acc(name)
+        res['records'].append((name, r[0], r[1]))
+        if tb:
+            res['tb_' + name] = tb
+        if r[0] == 'hang':
+            break
+    try:
+        if p.is_alive():
+            p.kill()
+    except Exception:
+        pass
+    return res
+
+
+# ---------------------------------------------------------------- C20 targets
+
+
+def log_message(i, size):
+    head = f'{i:06d}:'
+    return head + 'm' * max(0, size - len(head))
+
+
+def emit_records(spec):
+    import logging
+
+    for i in range(spec['n']):
+        name = spec['names'][i % len(spec['names'])]
+        lvl = spec['levels'][i % len(spec['levels'])]
+        logging.getLogger(name).log(lvl, log_message(i, spec['size']))
+
+
+def log_target(spec):
+    import sys
+
+    emit_records(spec)
+    if spec['tail'] == 'then_sleep':
+        time.sleep(0.3)
+    if spec['ending'] == 'raise':
+        raise ValueError('log target failed')
+    if spec['ending'] == 'exit_n':
+        sys.exit(3)
+    return 'ok'
+
+
+def log_target_pool(spec):
+    emit_records(spec)
+    if spec['tail'] == 'then_sleep':
+        time.sleep(0.3)
+    if spec['ending'] == 'raise':
+        raise ValueError('log target failed')
+    return 'ok'
+
+
+from mpservice.mpserver import Worker as _Worker  # noqa: E402
+
+
+class LogWorker(_Worker):
+    def __init__(self, *, spec, **kw):
+        super().__init__(**kw)
+        self.spec = spec
+
+    def call(self, x):
+        emit_records(self.spec)
+        if self.spec['ending'] == 'raise':
+            raise ValueError('log target failed')
+        return 'ok'
+
+
+def log_case(spec):
+    """returns {} or {'error': (clause, detail)}"""
+    import mpservice.multiprocessing as mmp
+
+    mode = spec['mode']
+    if mode == 'process':
+        p = mmp.Process(target=log_target, args=(spec,))
+        p.start()
+        try:
+            r = p.result()
+            out = ('value', r)
+        except SystemExit as e:
+            out = ('exit', e.code)
+        except BaseException as e:
+            out = ('raised', type(e).__name__)
+        want = {'return': ('value', 'ok'), 'raise': ('raised', 'ValueError'), 'exit_n': ('exit', 3)}[spec['ending']]
+        if out != want:
+            return {'error': ('wrong_ending', f'result() gave {out}, expected {want}')}
+        if p.exitcode is None:
+            return {'error': ('no_exitcode', 'exitcode is None after result() returned')}
+        return {}
+    if mode == 'servlet':
+        from mpservice.mpserver import ProcessServlet, Server
+
+        with Server(ProcessServlet(LogWorker, spec=spec)) as server:
+            try:
+                y = server.call(1, timeout=100)
+                out = ('value', y)
+            except BaseException as e:
+                out = ('raised', type(e).__name__)
+        want = ('raised', 'ValueError') if spec['ending'] == 'raise' else ('value', 'ok')
+        if out != want:
+            return {'error': ('wrong_ending', f'server.call gave {out}, expected {want}')}
+        return {}
+    from mpservice.concurrent.futures import ProcessPoolExecutor
+
+    with ProcessPoolExecutor(1) as pool:
+        f = pool.submit(log_target_pool, spec, loud_exception=False)
+        try:
+            out = ('value', f.result(timeout=100))
+        except BaseException as e:
+            out = ('raised', type(e).__name__)
+    want = ('raised', 'ValueError') if spec['ending'] == 'raise' else ('value', 'ok')
+    if out != want:
+        return {'error': ('wrong_ending', f'pool future gave {out}, expected {want}')}
+    return {}
